@@ -97,6 +97,14 @@ if ok:
             shutil.copy(os.path.join(src, f), dst)
     notes = os.path.join(src, 'notes.md')
     meta['needs'] = open(notes).read()[:1500] if os.path.exists(notes) else ''
+    mp = os.path.join(dst, 'meta.json')
+    if os.path.exists(mp):
+        try:
+            old = json.load(open(mp))
+            merged = dict(old.get('checks', {})); merged.update(meta['checks']); meta['checks'] = merged
+            meta['ran'] = old.get('ran', []) + meta['ran']
+        except Exception:
+            pass
     with open(os.path.join(dst, 'meta.json'), 'w') as f:
         json.dump(meta, f, indent=1)
     print('stored in', dst)
